@@ -167,11 +167,16 @@ fn budget(prop: &str, tier: &str, seed: u64, scale: f64) -> Budget {
         }
         "C05" => {
             random_runs = r(250_000, 150_000, 6_000_000, 6_000_000);
+            sweeps.push(sweeps::c05_short_streams(!quick, !quick && checked));
+            if checked {
+                sweeps.push(sweeps::small_geometry("C05", if quick { 200 } else { 1300 }, if quick { 40 } else { 150 }));
+            }
         }
         "C08" => {
             random_runs = r(120_000, 40_000, 4_000_000, 1_000_000);
             if checked {
                 sweeps.push(sweeps::c08_single_pixel(seed, if quick { 1 } else { 16 }));
+                sweeps.push(sweeps::small_geometry("C08", if quick { 330 } else { 1300 }, if quick { 40 } else { 150 }));
             }
         }
         _ => {
